@@ -66,6 +66,42 @@ class Run:
             self.analysis_errors.append(f"{getattr(fn, '__name__', fn)}: {e}")
             return None
 
+    def control(self, rid: str, fn, edits, what: str):
+        """positive control for a rule whose expected number of violations (or of instances) on a healthy tree is zero: apply a small in-memory
+        edit that breaks exactly this rule to the *current* sources and require the rule to report it.  A rule that cannot see its own
+        counter-example has gone blind -> analysis error, never a silent pass."""
+        from .model import AnalysisError, Project, REPO
+        from .selftest.bank import apply_edit
+        overlay: Dict[str, str] = dict(getattr(self.project, "overlay", None) or {})
+        for rel, qual, old, new in edits:
+            if old is None:
+                # append a synthetic construct to the module: independent of any existing source text
+                import os as _os
+                full = "src/mygrad/" + rel
+                src = overlay.get(full)
+                if src is None:
+                    fp = _os.path.join(REPO, full)
+                    if not _os.path.exists(fp):
+                        self.analysis_errors.append(f"positive control for {rid} ({what}): module {rel} is gone")
+                        return
+                    with open(fp, encoding="utf-8") as fh:
+                        src = fh.read()
+                overlay[full] = src.rstrip("\n") + "\n\n\n" + new + "\n"
+                continue
+            if not apply_edit(REPO, "src/mygrad/" + rel, qual, old, new, overlay):
+                self.analysis_errors.append(f"positive control for {rid} ({what}): its anchor `{old[:40]}` in {rel}:{qual} is gone")
+                return
+        try:
+            sub = Run(self.prop, self.tier, Project(overlay=overlay))
+            fn(sub)
+            fired = [o for o in sub.obligations if not o.ok and o.rule == rid]
+        except AnalysisError as e:
+            fired = [e]
+        if not fired:
+            self.analysis_errors.append(f"positive control for {rid} ({what}) was not reported: the rule has gone blind")
+        else:
+            self.count("positive controls reported", 1)
+
     def count(self, key: str, n: int = 1):
         self.counters[key] = self.counters.get(key, 0) + n
 
